@@ -128,6 +128,44 @@ theorem enc_feed_reachable (p : Params) (m : Method) (s : EncState) (nid : Nat) 
       (q.run ((Enc.feedAll p s nid m input).2.2.map (·.op))) :=
   EncProof.feed_reachable p m _ s nid q input h
 
+/-- Draining the encoder's output while the stream is in flight changes nothing: interleave any
+drain schedule with the ops of any run (`evs`); what was drained followed by what `terminate` leaves
+buffered is `Spec.encode` of the input, nothing is pending, and at every earlier moment the
+drained-plus-stable bytes are a prefix of it. -/
+theorem enc_refines_spec_drained (p : Params) (hp : p.Valid) (pieces : List (Method × List UInt8))
+    (evs : List Ev) (hev : prodOps evs = (Enc.runPieces p pieces).map (·.op)) :
+    (runEv Pipe.empty evs).consumed ++ (runEv Pipe.empty evs).bytes = Spec.encode p (pieces.map (·.2)).flatten ∧
+    (runEv Pipe.empty evs).pending = false ∧
+    ∀ evs1 evs2, evs = evs1 ++ evs2 →
+      (runEv Pipe.empty evs1).consumed ++ (runEv Pipe.empty evs1).stable
+        <+: Spec.encode p (pieces.map (·.2)).flatten := by
+  obtain ⟨h1, h2⟩ := enc_impl_refines_spec p hp pieces
+  have hc := Woodpile.Pipe.drain_complete Pipe.empty evs
+  rw [total_empty, hev] at hc
+  refine ⟨by rw [hc.1]; exact h1, by rw [hc.2]; exact h2, ?_⟩
+  intro evs1 evs2 he
+  have hp' := Woodpile.Pipe.drain_prefix Pipe.empty evs1 evs2
+  rw [total_empty, ← he, hev] at hp'
+  rw [← h1]; exact hp'
+
+/-- The same on the decoding side: with any drain schedule interleaved into a successful run, the
+drained bytes followed by the buffered ones are the decoded message. -/
+theorem dec_refines_spec_drained (p : Params) (pieces : List (Method × List UInt8)) (es : List Emit)
+    (hrun : Dec.runPieces p pieces .initial [] = .ok es)
+    (evs : List Ev) (hev : prodOps evs = es.map (·.op)) :
+    Spec.decode p (pieces.map (·.2)).flatten
+      = some ((runEv Pipe.empty evs).consumed ++ (runEv Pipe.empty evs).bytes) := by
+  have hc := (Woodpile.Pipe.drain_complete Pipe.empty evs).1
+  rw [total_empty, hev] at hc
+  have hout : Dec.output p pieces = .ok (Pipe.run Pipe.empty (es.map (·.op))).bytes := by
+    simp only [Dec.output, hrun]
+  have h := DecProof.decode_agrees p (pieces.map (·.2)).flatten
+  rw [← DecProof.output_eq_decRun, hout] at h
+  unfold DecProof.Agrees at h
+  cases hd : Spec.decode p (pieces.map (·.2)).flatten with
+  | none => rw [hd] at h; obtain ⟨e, he⟩ := h; cases he
+  | some out => rw [hd] at h; simp only at h; cases h; rw [hc]
+
 /-- C01 given the spec-level round trip. -/
 theorem roundtrip_given_spec (p : Params) (hp : p.Valid)
     (hrt : ∀ d, Spec.decode p (Spec.encode p d) = some d)
@@ -167,6 +205,9 @@ example : (Enc.output tp [(.copy, [0x31, 0x32, 0x33, 0x34, 0xFE, 0xFE, 0xFD])]).
 -- "12\xFE\xFD": the FE is the last byte of a full first chunk
 example : (Enc.output tp [(.copy, [0x31, 0x32, 0xFE]), (.borrow, []), (.borrow, [0xFD])]).bytes
     = [3, 0x31, 0x32, 0xFE, 1, 0, 0xFD] := by decide
+-- the drained variant's hypothesis is satisfiable: drain 2 bytes right after the first piece
+example : prodOps ([.prod (.register 1), .prod (.append [0x31]), .prod (.fill 0 [1]), .drain 2] : List Ev)
+    = (Enc.runPieces tp [(.copy, [0x31])]).map (·.op) := by decide
 -- decoding that wire image, split inside the 2-byte header and inside the body
 example : Dec.output tp [(.copy, [3, 0x31, 0x32, 0x33, 2]), (.borrow, [0, 0x34]), (.copy, [0xFE, 0, 0])]
     = .ok [0x31, 0x32, 0x33, 0x34, 0xFE, 0xFE, 0xFD] := by rfl
